@@ -400,6 +400,9 @@ def mod(a, b, zero_div):
         zero_div(cmp("==", b, 0))
     if is_conc(a) and is_conc(b):
         return a % b
+    if is_conc(b) and b > 0 and (b & (b - 1)) == 0:
+        # positive power of two: Python's floor modulo is the low bits (exact for every int)
+        return band(a, b - 1)
     if bl > 0:
         lo, hi = 0, bh - 1
         (al, ah) = rng(a)
@@ -421,6 +424,9 @@ def floordiv(a, b, zero_div):
         zero_div(cmp("==", b, 0))
     if is_conc(a) and is_conc(b):
         return a // b
+    if is_conc(b) and b > 0 and (b & (b - 1)) == 0:
+        # positive power of two: floor division is the arithmetic shift (exact for every int)
+        return shr(a, b.bit_length() - 1, lambda c: None)
     ea, eb = bv(a), bv(b)
     q = ea / eb  # bvsdiv: truncating
     r = z3.SRem(ea, eb)
